@@ -24,6 +24,7 @@ def main() -> int:
     ap.add_argument("--only", default=None, help="substring filter on harness names (debugging)")
     a = ap.parse_args()
     seed = int(os.environ.get("VERIF_SEED", "0") or 0)
+    os.environ["VERIF_TIER_EFFECTIVE"] = a.tier
     pid = a.pid.upper()
     mod = importlib.import_module(f"vf.checks.{pid.lower()}")
     if a.replay:
